@@ -47,6 +47,7 @@ func runEquivocation(c *fw.Ctx, blameOnly bool) {
 		// the handler's echo mechanism under round shapes no shipped protocol has (a reliable broadcast
 		// followed by a point-to-point-only round, by a plain broadcast, ...)
 		sc = scen.DrawToy(c, 3)
+		sc.ToyNoDigest = true // no application-level detection: only the handler's echo stands between an equivocation and a split
 	} else {
 		sc = scen.DrawScenario(c, scen.ScenarioOpts{CMPPerMille: cmpRate(c, 25), MinN: 3, MaxN: 5, OnlyMulti: true, AllowXor: false})
 	}
